@@ -203,6 +203,30 @@ Section Ack.
     - apply result3_same; auto.
   Qed.
 
+  (** an offer of an entry that is held or superseded is rejected: nothing changes, nobody is told *)
+  Lemma covered_offer_rejected T e : SInv T -> wf_entry e -> covered (recs T) e ->
+    snd (fs_put prefix_succ EH T e) = NotInserted.
+  Proof.
+    intros (W & _ & _) We (p & Ip & R). destruct (fs_put_refines EH T e W We) as (OUT & _ & _). rewrite OUT.
+    unfold put. assert (X : existsb (fun p => rel p e) (recs T) = true) by (apply existsb_exists; exists p; auto).
+    now rewrite X.
+  Qed.
+
+  Theorem redelivery_is_silent s ns e ok from st now :
+    SInv (a_tables s) -> wf_entry e -> covered (recs (a_tables s)) e ->
+    let '(s', r, d) := step s (AInsertRemote ns e ok from st now) in
+    d = [] /\ a_tables s' = a_tables s /\ r <> AOk.
+  Proof.
+    intros I We CV. cbn [astep]. destruct (aget s ns) as [ar|]; [|repeat split; discriminate].
+    destruct (negb (ar_sync ar)); [repeat split; discriminate|].
+    unfold replica_insert_remote, insert_entry. cbn [w_entry].
+    destruct (negb (validate_empty EH e)); [rewrite deliver_nil; repeat split; discriminate|].
+    destruct (validate_entry MF now ns (mkW e ok) false); [rewrite deliver_nil; repeat split; discriminate|].
+    pose proof (covered_offer_rejected (a_tables s) e I We CV) as NI. cbn [w_entry].
+    destruct (fs_put prefix_succ EH (a_tables s) e) as [T' out]. cbn [snd] in NI. subst out.
+    rewrite deliver_nil. repeat split; discriminate.
+  Qed.
+
   Notation run := (arun prefix_succ EH MF CAP mss split).
 
   (** what is held or superseded stays so until the end, unless its document is dropped on the way *)
